@@ -15,7 +15,7 @@
 From stdpp Require Import gmap list.
 From RecordUpdate Require Import RecordSet.
 Import RecordSetNotations.
-From Aldrin Require Import gen.ClientConsts Broker.Model Proto.ClientView.
+From Aldrin Require Import gen.ClientConsts gen.BrokerConsts Broker.Model Proto.ClientView.
 Local Open Scope N_scope.
 
 Definition cnt {A} (P : A -> bool) (m : gmap N A) : nat := size (filter (fun p => P p.2 = true) m).
@@ -978,6 +978,900 @@ Proof.
   - apply S4; [exact E|exact Hn].
   - destruct (k_handles z !! hid) eqn:E'; [|reflexivity].
     assert (is_Some (k_handles x !! hid)) by (apply S3; eauto). rewrite E in H. destruct H. discriminate.
+Qed.
+
+(* ---------------------------------------------------------------- the system invariant *)
+Definition up_serial (m : msg) : option N :=
+  match m with CloseChannelEnd s _ _ | ClaimChannelEnd s _ _ => Some s | _ => None end.
+Definition is_upmsg (m : msg) : Prop :=
+  match m with
+  | CloseChannelEnd _ c _ | ClaimChannelEnd _ c _ | SendItem c _ | AddChannelCapacity c _ => c = k
+  | _ => False
+  end.
+
+(* [z] = the client's core after it will have consumed everything in flight towards it *)
+Record LI (x : cl) (z : ccore) : Prop := {
+  li_drain : cdrain (c_core x) (c_down x) = ROk z;
+  li_ai : AI (c_core x) (c_q x);
+  li_hfresh : hfresh x;
+  li_pclose_up : forall s e b, k_pclose z !! s = Some (e, b) -> CloseChannelEnd s k e ∈ c_up x;
+  li_up_pclose : forall s e, CloseChannelEnd s k e ∈ c_up x -> exists b, k_pclose z !! s = Some (e, b);
+  li_pclaim_up : forall s e hid, k_pclaim z !! s = Some (e, hid) -> exists cap, ClaimChannelEnd s k (cap_end e cap) ∈ c_up x;
+  li_up_pclaim : forall s ec, ClaimChannelEnd s k ec ∈ c_up x -> exists hid, k_pclaim z !! s = Some (end_of_cap ec, hid);
+  li_up_only : forall m, m ∈ c_up x -> is_upmsg m;
+  li_nodup : NoDup (omap up_serial (c_up x));
+  li_fresh_up : forall s, s ∈ omap up_serial (c_up x) -> s < c_next x;
+  li_fresh_pclose : forall s, is_Some (k_pclose (c_core x) !! s) -> s < c_next x;
+  li_fresh_pclaim : forall s, is_Some (k_pclaim (c_core x) !! s) -> s < c_next x }.
+
+Definition end_st (ch : chan) (e : chan_end) : end_state := match e with ESender => ch_s ch | EReceiver => ch_r ch end.
+Definition st_of (s : end_state) : est :=
+  match s with Unclaimed => EPending | Claimed _ _ => EEstablished | Closed => EPeerClosed end.
+
+(* [skip] = an end the broker is about to close: nothing is required about it *)
+Definition linkx (skip : option chan_end) (ch : option chan) (c : conn) (z : ccore) (q : list hreq) : Prop :=
+  match ch with
+  | None => True
+  | Some ch => forall e, skip <> Some e ->
+      (forall cap, end_st ch e = Claimed c cap ->
+                   tokens z q e = 1%nat /\ ent z e = Some (st_of (end_st ch (other_end e)))) /\
+      (end_st ch e = Unclaimed -> tokens z q e = 0%nat)
+  end.
+Definition link := linkx None.
+
+Definition PI (skip : option chan_end) (cls : gmap conn cl) (ch : option chan) : Prop :=
+  forall c x, cls !! c = Some x -> exists z, LI x z /\ linkx skip ch c z (c_q x).
+
+Definition CI (y : csys) : Prop := y_k y = k /\ PI None (y_cl y) (y_ch y).
+
+Lemma LI_drained_AI x z : LI x z -> AI z (c_q x).
+Proof. intros I. eapply cdrain_AI; [apply (li_ai _ _ I)|apply (li_drain _ _ I)]. Qed.
+
+(* a link only looks at tokens and entries *)
+Lemma link_same skip ch c z q z' q' :
+  linkx skip ch c z q -> (forall e, tokens z' q' e = tokens z q e) -> (forall e, ent z' e = ent z e) -> linkx skip ch c z' q'.
+Proof.
+  intros L Ht He. destruct ch as [ch|]; [|exact Logic.I]. intros e Hs. rewrite Ht, He. apply L. exact Hs.
+Qed.
+
+Lemma linkx_weaken skip ch c z q : linkx None ch c z q -> linkx skip ch c z q.
+Proof. destruct ch as [ch|]; [|auto]. intros L e _. apply L. discriminate. Qed.
+
+(* ---------------------------------------------------------------- SRecv *)
+Lemma LI_recv x z m d k' :
+  LI x z -> c_down x = m :: d -> crecv fl (c_core x) m = ROk k' ->
+  LI (x <| c_down := d |> <| c_core := k' |>) z.
+Proof.
+  intros I Hd Hr. destruct I as [I1 I2 I3 I4 I5 I6 I7 I8 I9 I10 I11 I12].
+  rewrite Hd in I1. cbn [cdrain] in I1. rewrite Hr in I1.
+  pose proof (crecv_sub _ _ _ Hr) as (S1 & S2 & S3 & S4).
+  destruct x as [core nx nh q up dn]. cbn in *. constructor; cbn; try assumption.
+  - eapply crecv_AI; eassumption.
+  - intros hid Hs. apply I3. cbn. apply S3. exact Hs.
+  - intros s Hs. apply I11. apply S1. exact Hs.
+  - intros s Hs. apply I12. apply S2. exact Hs.
+Qed.
+
+Lemma recv_accepts x z m d :
+  LI x z -> c_down x = m :: d -> exists k', crecv fl (c_core x) m = ROk k'.
+Proof.
+  intros I Hd. pose proof (li_drain _ _ I) as H. rewrite Hd in H. cbn [cdrain] in H.
+  destruct (crecv fl (c_core x) m); try discriminate. eauto.
+Qed.
+
+(* ---------------------------------------------------------------- SApp *)
+Lemma LI_app x z o x2 :
+  LI x z -> app_step fl x o = Some x2 ->
+  exists z2, LI x2 z2 /\ (forall e, tokens z2 (c_q x2) e = tokens z (c_q x) e) /\ (forall e, ent z2 e = ent z e).
+Proof.
+  intros I Ha. destruct (app_effect x o x2 Ha (li_hfresh _ _ I) (li_ai _ _ I))
+    as (hid & onew & reqs & Hncl & Hcore & Hq & Hnx & Hup & Hdn & Hneutral & Hfr & Hai).
+  pose proof (li_drain _ _ I) as Hd.
+  assert (Hno : forall s e, k_pclaim (c_core x) !! s <> Some (e, hid)).
+  { intros s e Hs. apply Hncl. exists e. eapply (ai_claim_h _ _ (li_ai _ _ I)). exact Hs. }
+  pose proof (cdrain_upd_h _ _ _ hid onew Hd Hno) as Hd2.
+  exists (z <| k_handles ::= upd_h hid onew |>).
+  pose proof (cdrain_sub _ _ _ Hd) as Hsub.
+  assert (Hzh : k_handles z !! hid = k_handles (c_core x) !! hid) by (apply drained_handle; assumption).
+  split; [|split].
+  - destruct I as [I1 I2 I3 I4 I5 I6 I7 I8 I9 I10 I11 I12]. constructor.
+    + rewrite Hcore, Hdn. exact Hd2.
+    + exact Hai.
+    + exact Hfr.
+    + rewrite Hup. intros s e b Hs. eapply I4. destruct z; exact Hs.
+    + rewrite Hup. intros s e Hin. destruct (I5 _ _ Hin) as [b Hb]. exists b. destruct z; exact Hb.
+    + rewrite Hup. intros s e h Hs. eapply I6. destruct z; exact Hs.
+    + rewrite Hup. intros s ec Hin. destruct (I7 _ _ Hin) as [h Hh]. exists h. destruct z; exact Hh.
+    + rewrite Hup. exact I8.
+    + rewrite Hup. exact I9.
+    + rewrite Hup, Hnx. exact I10.
+    + rewrite Hcore, Hnx. intros s Hs. apply I11. destruct (c_core x); exact Hs.
+    + rewrite Hcore, Hnx. intros s Hs. apply I12. destruct (c_core x); exact Hs.
+  - intros e. rewrite Hq. pose proof (tokens_upd_h z (c_q x ++ reqs) hid onew e) as Ht. rewrite Hzh in Ht.
+    specialize (Hneutral e).
+    assert (tokens z (c_q x ++ reqs) e = (tokens z (c_q x) e + nq e reqs)%nat) by (unfold tokens; rewrite nq_app; lia).
+    lia.
+  - intros e. apply ent_upd_h.
+Qed.
+
+(* ---------------------------------------------------------------- SProc *)
+Lemma AI_tail_common x x' r q :
+  AI x (r :: q) -> k_handles x' = k_handles x ->
+  (forall q1 v q2, q = q1 ++ QSend v :: q2 ->
+     (exists hid b, k_handles x' !! hid = Some {| h_end := ESender; h_kind := HClaimed b |}) \/ QClose ESender true ∈ q2) /\
+  (forall q1 n q2, q = q1 ++ QAddCap n :: q2 ->
+     (exists hid b, k_handles x' !! hid = Some {| h_end := EReceiver; h_kind := HClaimed b |}) \/ QClose EReceiver true ∈ q2).
+Proof.
+  intros I Hh. rewrite Hh. split.
+  - intros q1 v q2 Hq. apply (ai_q_send _ _ I (r :: q1) v q2). rewrite Hq. reflexivity.
+  - intros q1 n q2 Hq. apply (ai_q_addcap _ _ I (r :: q1) n q2). rewrite Hq. reflexivity.
+Qed.
+
+Lemma AI_proc_close x e b q s :
+  AI x (QClose e b :: q) -> k_pclose x !! s = None -> AI (x <| k_pclose ::= <[s := (e, b)]> |>) q.
+Proof.
+  intros I Hs. destruct (AI_tail_common x (x <| k_pclose ::= <[s := (e, b)]> |>) _ _ I ltac:(destruct x; reflexivity)) as [T6 T7].
+  destruct I as [I1 I2 I3 I4 I5 I6 I7].
+  assert (Hpk : k_pclaim (x <| k_pclose ::= <[s := (e, b)]> |>) = k_pclaim x) by (destruct x; reflexivity).
+  assert (Hhs : k_handles (x <| k_pclose ::= <[s := (e, b)]> |>) = k_handles x) by (destruct x; reflexivity).
+  constructor; rewrite ?Hpk, ?Hhs; try assumption.
+  - intros e'. rewrite (tokens_ins_pclose x q s e b e' Hs).
+    assert (Hq : tokens x (QClose e b :: q) e' = (tokens x q e' + if tok_close e' (e, b) then 1 else 0)%nat).
+    { unfold tokens. rewrite nq_cons. unfold tok_req, tok_close. cbn.
+      destruct b; cbn; [rewrite ?andb_true_r; destruct (bool_decide (e = e')); lia|rewrite ?andb_false_r; lia]. }
+    assert (He : ent (x <| k_pclose ::= <[s := (e, b)]> |>) e' = ent x e') by (destruct x, e'; reflexivity).
+    rewrite He, <- Hq. apply I1.
+  - intros e0 cap hid Hin. apply (I4 e0 cap hid). right. exact Hin.
+Qed.
+
+Lemma AI_proc_claim x e cap hid q s :
+  AI x (QClaim e cap hid :: q) -> k_pclaim x !! s = None -> AI (x <| k_pclaim ::= <[s := (e, hid)]> |>) q.
+Proof.
+  intros I Hs. destruct (AI_tail_common x (x <| k_pclaim ::= <[s := (e, hid)]> |>) _ _ I ltac:(destruct x; reflexivity)) as [T6 T7].
+  destruct I as [I1 I2 I3 I4 I5 I6 I7].
+  assert (Hpk : k_pclaim (x <| k_pclaim ::= <[s := (e, hid)]> |>) = <[s := (e, hid)]> (k_pclaim x)) by (destruct x; reflexivity).
+  assert (Hhs : k_handles (x <| k_pclaim ::= <[s := (e, hid)]> |>) = k_handles x) by (destruct x; reflexivity).
+  destruct (I4 e cap hid ltac:(left)) as [Hh Hnone].
+  cbn in I5. apply NoDup_cons in I5. destruct I5 as [Hnotin I5].
+  constructor; rewrite ?Hpk, ?Hhs; try assumption.
+  - intros s0 e0 hid0 H0. destruct (decide (s0 = s)) as [->|Hne].
+    + rewrite lookup_insert in H0. inversion H0; subst. exact Hh.
+    + rewrite lookup_insert_ne in H0 by congruence. eapply I2. exact H0.
+  - intros s1 s2 e1 e2 hid0 H1 H2.
+    destruct (decide (s1 = s)) as [->|Hne1]; destruct (decide (s2 = s)) as [->|Hne2]; [reflexivity| | |].
+    + rewrite lookup_insert in H1. inversion H1; subst. rewrite lookup_insert_ne in H2 by congruence. exfalso. eapply Hnone. exact H2.
+    + rewrite lookup_insert in H2. inversion H2; subst. rewrite lookup_insert_ne in H1 by congruence. exfalso. eapply Hnone. exact H1.
+    + rewrite lookup_insert_ne in H1, H2 by congruence. eapply I3; eassumption.
+  - intros e0 cap0 hid0 Hin. destruct (I4 e0 cap0 hid0 ltac:(right; exact Hin)) as [G1 G2]. split; [exact G1|].
+    intros s0 e' H0. destruct (decide (s0 = s)) as [->|Hne].
+    + rewrite lookup_insert in H0. inversion H0; subst. apply Hnotin.
+      apply elem_of_list_omap. eexists. split; [exact Hin|reflexivity].
+    + rewrite lookup_insert_ne in H0 by congruence. eapply G2. exact H0.
+Qed.
+
+Lemma AI_proc_plain x r q :
+  AI x (r :: q) -> qclaim_hid r = None -> (forall e, tok_req e r = false) -> AI x q.
+Proof.
+  intros I Hr Ht. destruct (AI_tail_common x x _ _ I eq_refl) as [T6 T7].
+  destruct I as [I1 I2 I3 I4 I5 I6 I7]. constructor; try assumption.
+  - intros e. assert (Hq : tokens x (r :: q) e = tokens x q e) by (unfold tokens; rewrite nq_cons, Ht; lia).
+    rewrite <- Hq. apply I1.
+  - intros e cap hid Hin. apply (I4 e cap hid). right. exact Hin.
+  - cbn in I5. rewrite Hr in I5. exact I5.
+Qed.
+
+Lemma held_present x q e hid b :
+  AI x q -> k_handles x !! hid = Some {| h_end := e; h_kind := HClaimed b |} -> ent x e <> None.
+Proof.
+  intros I Hh. apply (ai_tok _ _ I e).
+  pose proof (cnt_pos (tok_handle e) (k_handles x) hid _ Hh) as Hp.
+  unfold tok_handle in Hp at 1. cbn in Hp. rewrite bool_decide_eq_true_2 in Hp by reflexivity. specialize (Hp eq_refl).
+  pose proof (proj1 (ai_tok _ _ I e)). unfold tokens in *. lia.
+Qed.
+
+Lemma qclose_present x q1 q2 e :
+  AI x (q1 ++ q2) -> QClose e true ∈ q2 -> ent x e <> None.
+Proof.
+  intros I Hin. apply (ai_tok _ _ I e).
+  assert (1 <= nq e (q1 ++ q2))%nat.
+  { rewrite nq_app. apply elem_of_list_split in Hin. destruct Hin as (l1 & l2 & ->).
+    rewrite nq_app, nq_cons. cbn. rewrite bool_decide_eq_true_2 by reflexivity. lia. }
+  pose proof (proj1 (ai_tok _ _ I e)). unfold tokens in *. lia.
+Qed.
+
+Lemma LI_proc x z x2 :
+  LI x z -> proc_step k x = POk x2 ->
+  exists z2, LI x2 z2 /\ (forall e, tokens z2 (c_q x2) e = tokens z (c_q x) e) /\ (forall e, ent z2 e = ent z e).
+Proof.
+  intros I Hp. unfold proc_step in Hp. destruct (c_q x) as [|r q] eqn:Hq; [discriminate|].
+  pose proof (li_drain _ _ I) as Hd. pose proof (li_ai _ _ I) as Hai. rewrite Hq in Hai.
+  pose proof (LI_drained_AI _ _ I) as Haz. rewrite Hq in Haz.
+  destruct I as [I1 I2 I3 I4 I5 I6 I7 I8 I9 I10 I11 I12].
+  assert (Hfc : k_pclose (c_core x) !! c_next x = None).
+  { destruct (k_pclose (c_core x) !! c_next x) eqn:E; [|reflexivity]. assert (c_next x < c_next x) by (apply I11; eauto). lia. }
+  assert (Hfk : k_pclaim (c_core x) !! c_next x = None).
+  { destruct (k_pclaim (c_core x) !! c_next x) eqn:E; [|reflexivity]. assert (c_next x < c_next x) by (apply I12; eauto). lia. }
+  assert (Hnotup : c_next x ∉ omap up_serial (c_up x)) by (intros Hin; apply I10 in Hin; lia).
+  destruct r as [e b|e cap hid|v|n]; cbn in Hp.
+  - (* QClose *)
+    inversion Hp; subst x2; clear Hp.
+    destruct (cdrain_ins_pclose _ _ _ (c_next x) (e, b) Hd Hfc) as [Hd2 Hz].
+    exists (z <| k_pclose ::= <[c_next x := (e, b)]> |>).
+    destruct x as [core nx nh q0 up dn]. cbn in *. subst q0. split; [|split].
+    + constructor; cbn.
+      * exact Hd2.
+      * apply AI_proc_close; assumption.
+      * intros hid Hs. apply I3. cbn. destruct core; exact Hs.
+      * intros s e0 b0 Hs. destruct z as [zes zer zpc zpk zhs]. cbn in *. destruct (decide (s = nx)) as [->|Hne].
+        -- rewrite lookup_insert in Hs. inversion Hs; subst. apply elem_of_app. right. apply elem_of_list_singleton. reflexivity.
+        -- rewrite lookup_insert_ne in Hs by congruence. apply elem_of_app. left. eapply I4. exact Hs.
+      * intros s e0 Hin. destruct z as [zes zer zpc zpk zhs]. cbn in *. apply elem_of_app in Hin. destruct Hin as [Hin|Hin].
+        -- destruct (I5 _ _ Hin) as [b0 Hb0]. exists b0. rewrite lookup_insert_ne; [exact Hb0|].
+           intros <-. apply Hnotup. apply elem_of_list_omap. eexists. split; [exact Hin|reflexivity].
+        -- apply elem_of_list_singleton in Hin. inversion Hin; subst. exists b. apply lookup_insert.
+      * intros s e0 hid Hs. destruct (I6 s e0 hid ltac:(destruct z; exact Hs)) as [cap Hc]. exists cap. apply elem_of_app. left. exact Hc.
+      * intros s ec Hin. apply elem_of_app in Hin. destruct Hin as [Hin|Hin].
+        -- destruct (I7 _ _ Hin) as [h Hh]. exists h. destruct z; exact Hh.
+        -- apply elem_of_list_singleton in Hin. discriminate.
+      * intros m Hin. apply elem_of_app in Hin. destruct Hin as [Hin|Hin]; [apply I8; exact Hin|].
+        apply elem_of_list_singleton in Hin. subst m. reflexivity.
+      * rewrite omap_app. cbn. apply NoDup_app. split; [exact I9|]. split; [|apply NoDup_singleton].
+        intros s Hin Hin'. apply elem_of_list_singleton in Hin'. subst s. apply Hnotup. exact Hin.
+      * intros s. rewrite omap_app. cbn. rewrite elem_of_app, elem_of_list_singleton. intros [Hin | ->]; [apply I10 in Hin|]; lia.
+      * intros s Hs. destruct core as [ces cer cpc cpk chs]. cbn in *. destruct (decide (s = nx)) as [->|Hne]; [lia|].
+        rewrite lookup_insert_ne in Hs by congruence. apply I11 in Hs. lia.
+      * intros s Hs. destruct core as [ces cer cpc cpk chs]. cbn in *. apply I12 in Hs. lia.
+    + intros e'. cbn. rewrite (tokens_ins_pclose z q nx e b e' Hz).
+      unfold tokens. rewrite nq_cons. unfold tok_req, tok_close. cbn.
+      destruct b; cbn; [rewrite ?andb_true_r; destruct (bool_decide (e = e')); lia|rewrite ?andb_false_r; lia].
+    + intros e'. destruct z, e'; reflexivity.
+  - (* QClaim *)
+    inversion Hp; subst x2; clear Hp.
+    destruct (cdrain_ins_pclaim _ _ _ (c_next x) (e, hid) Hd Hfk) as [Hd2 Hz].
+    exists (z <| k_pclaim ::= <[c_next x := (e, hid)]> |>).
+    destruct x as [core nx nh q0 up dn]. cbn in *. subst q0. split; [|split].
+    + constructor; cbn.
+      * exact Hd2.
+      * apply (AI_proc_claim _ e cap hid); assumption.
+      * intros h Hs. apply I3. cbn. destruct core; exact Hs.
+      * intros s e0 b0 Hs. apply elem_of_app. left. eapply I4. destruct z; exact Hs.
+      * intros s e0 Hin. apply elem_of_app in Hin. destruct Hin as [Hin|Hin].
+        -- destruct (I5 _ _ Hin) as [b0 Hb0]. exists b0. destruct z; exact Hb0.
+        -- apply elem_of_list_singleton in Hin. discriminate.
+      * intros s e0 h Hs. destruct z as [zes zer zpc zpk zhs]. cbn in *. destruct (decide (s = nx)) as [->|Hne].
+        -- rewrite lookup_insert in Hs. inversion Hs; subst. exists cap. apply elem_of_app. right. apply elem_of_list_singleton. reflexivity.
+        -- rewrite lookup_insert_ne in Hs by congruence. destruct (I6 _ _ _ Hs) as [cap0 Hc]. exists cap0. apply elem_of_app. left. exact Hc.
+      * intros s ec Hin. destruct z as [zes zer zpc zpk zhs]. cbn in *. apply elem_of_app in Hin. destruct Hin as [Hin|Hin].
+        -- destruct (I7 _ _ Hin) as [h Hh]. exists h. rewrite lookup_insert_ne; [exact Hh|].
+           intros <-. apply Hnotup. apply elem_of_list_omap. eexists. split; [exact Hin|reflexivity].
+        -- apply elem_of_list_singleton in Hin. inversion Hin; subst. exists hid. rewrite lookup_insert. destruct e; reflexivity.
+      * intros m Hin. apply elem_of_app in Hin. destruct Hin as [Hin|Hin]; [apply I8; exact Hin|].
+        apply elem_of_list_singleton in Hin. subst m. reflexivity.
+      * rewrite omap_app. cbn. apply NoDup_app. split; [exact I9|]. split; [|apply NoDup_singleton].
+        intros s Hin Hin'. apply elem_of_list_singleton in Hin'. subst s. apply Hnotup. exact Hin.
+      * intros s. rewrite omap_app. cbn. rewrite elem_of_app, elem_of_list_singleton. intros [Hin | ->]; [apply I10 in Hin|]; lia.
+      * intros s Hs. destruct core as [ces cer cpc cpk chs]. cbn in *. apply I11 in Hs. lia.
+      * intros s Hs. destruct core as [ces cer cpc cpk chs]. cbn in *. destruct (decide (s = nx)) as [->|Hne]; [lia|].
+        rewrite lookup_insert_ne in Hs by congruence. apply I12 in Hs. lia.
+    + intros e'. cbn. rewrite tokens_pclaim. unfold tokens. rewrite nq_cons. cbn. lia.
+    + intros e'. destruct z, e'; reflexivity.
+  - (* QSend *)
+    destruct (k_es (c_core x)) eqn:Ees; [|discriminate]. inversion Hp; subst x2; clear Hp.
+    exists z. destruct x as [core nx nh q0 up dn]. cbn in *. subst q0. split; [|split].
+    + constructor; cbn; try assumption.
+      * eapply AI_proc_plain; [exact Hai|reflexivity|reflexivity].
+      * intros s e0 b0 Hs. apply elem_of_app. left. eapply I4. exact Hs.
+      * intros s e0 Hin. apply elem_of_app in Hin. destruct Hin as [Hin|Hin]; [apply I5; exact Hin|].
+        apply elem_of_list_singleton in Hin. discriminate.
+      * intros s e0 h Hs. destruct (I6 _ _ _ Hs) as [cap0 Hc]. exists cap0. apply elem_of_app. left. exact Hc.
+      * intros s ec Hin. apply elem_of_app in Hin. destruct Hin as [Hin|Hin]; [apply I7; exact Hin|].
+        apply elem_of_list_singleton in Hin. discriminate.
+      * intros m Hin. apply elem_of_app in Hin. destruct Hin as [Hin|Hin]; [apply I8; exact Hin|].
+        apply elem_of_list_singleton in Hin. subst m. reflexivity.
+      * rewrite omap_app. cbn. rewrite app_nil_r. exact I9.
+      * rewrite omap_app. cbn. rewrite app_nil_r. exact I10.
+    + intros e'. cbn. unfold tokens. rewrite nq_cons. cbn. lia.
+    + reflexivity.
+  - (* QAddCap *)
+    destruct (k_er (c_core x)) eqn:Eer; [|discriminate]. inversion Hp; subst x2; clear Hp.
+    exists z. destruct x as [core nx nh q0 up dn]. cbn in *. subst q0. split; [|split].
+    + constructor; cbn; try assumption.
+      * eapply AI_proc_plain; [exact Hai|reflexivity|reflexivity].
+      * intros s e0 b0 Hs. apply elem_of_app. left. eapply I4. exact Hs.
+      * intros s e0 Hin. apply elem_of_app in Hin. destruct Hin as [Hin|Hin]; [apply I5; exact Hin|].
+        apply elem_of_list_singleton in Hin. discriminate.
+      * intros s e0 h Hs. destruct (I6 _ _ _ Hs) as [cap0 Hc]. exists cap0. apply elem_of_app. left. exact Hc.
+      * intros s ec Hin. apply elem_of_app in Hin. destruct Hin as [Hin|Hin]; [apply I7; exact Hin|].
+        apply elem_of_list_singleton in Hin. discriminate.
+      * intros m Hin. apply elem_of_app in Hin. destruct Hin as [Hin|Hin]; [apply I8; exact Hin|].
+        apply elem_of_list_singleton in Hin. subst m. reflexivity.
+      * rewrite omap_app. cbn. rewrite app_nil_r. exact I9.
+      * rewrite omap_app. cbn. rewrite app_nil_r. exact I10.
+    + intros e'. cbn. unfold tokens. rewrite nq_cons. cbn. lia.
+    + reflexivity.
+Qed.
+
+(* the two assertions of req_send_item / req_add_channel_capacity never fire *)
+Lemma proc_no_panic x z site : LI x z -> proc_step k x <> PPanic site.
+Proof.
+  intros I Hp. unfold proc_step in Hp. destruct (c_q x) as [|r q] eqn:Hq; [discriminate|].
+  pose proof (li_ai _ _ I) as Hai. rewrite Hq in Hai.
+  destruct r as [e b|e cap hid|v|n]; cbn in Hp; try discriminate.
+  - assert (Hent : ent (c_core x) ESender <> None).
+    { destruct (ai_q_send _ _ Hai [] v q eq_refl) as [(h & b & Hh)|Hin].
+      - eapply held_present; eassumption.
+      - eapply (qclose_present _ [QSend v] q); [exact Hai|exact Hin]. }
+    destruct x as [core nx nh q0 up dn]. cbn in *. destruct (k_es core); [discriminate|contradiction].
+  - assert (Hent : ent (c_core x) EReceiver <> None).
+    { destruct (ai_q_addcap _ _ Hai [] n q eq_refl) as [(h & b & Hh)|Hin].
+      - eapply held_present; eassumption.
+      - eapply (qclose_present _ [QAddCap n] q); [exact Hai|exact Hin]. }
+    destruct x as [core nx nh q0 up dn]. cbn in *. destruct (k_er core); [discriminate|contradiction].
+Qed.
+
+(* ---------------------------------------------------------------- the broker side *)
+Definition add_down (m : msg) (x : cl) : cl := x <| c_down ::= fun l => l ++ [m] |>.
+
+Lemma push_down_cl y o m c' :
+  y_cl (push_down y o m) !! c' = if decide (c' = o) then add_down m <$> y_cl y !! o else y_cl y !! c'.
+Proof.
+  unfold push_down. destruct (y_cl y !! o) as [x|] eqn:E; destruct (decide (c' = o)) as [->|Hne].
+  - destruct y as [yk ych ycl]. cbn in *. rewrite lookup_insert. reflexivity.
+  - destruct y as [yk ych ycl]. cbn in *. rewrite lookup_insert_ne by congruence. reflexivity.
+  - rewrite E. reflexivity.
+  - reflexivity.
+Qed.
+Lemma push_down_ch y o m : y_ch (push_down y o m) = y_ch y /\ y_k (push_down y o m) = y_k y.
+Proof. unfold push_down. destruct (y_cl y !! o); [destruct y; split; reflexivity|split; reflexivity]. Qed.
+
+(* notifications: everything the broker sends that is not a reply *)
+Definition notif (m : msg) : Prop :=
+  match m with ChannelEndClosed _ _ | ChannelEndClaimed _ _ | ItemReceived _ _ | AddChannelCapacity _ _ => True | _ => False end.
+
+Lemma notif_crecv z m z2 :
+  notif m -> crecv fl z m = ROk z2 ->
+  k_pclose z2 = k_pclose z /\ k_pclaim z2 = k_pclaim z /\ k_handles z2 = k_handles z.
+Proof.
+  intros Hn H. destruct m; cbn in Hn; try contradiction; cbn in H.
+  - destruct (ent z (other_end e)) as [[]|]; try discriminate; inversion H; subst; apply set_ent_fields.
+  - destruct (ent z (other_end (end_of_cap e))) as [[]|]; try discriminate; inversion H; subst; apply set_ent_fields.
+  - destruct (k_es z) as [[]|]; try discriminate; inversion H; subst; auto.
+  - destruct (k_er z) as [[]|]; try discriminate; inversion H; subst; auto.
+Qed.
+
+Lemma tokens_same_fields z z2 q e :
+  k_pclose z2 = k_pclose z -> k_handles z2 = k_handles z -> tokens z2 q e = tokens z q e.
+Proof. intros H1 H2. unfold tokens. rewrite H1, H2. reflexivity. Qed.
+
+Lemma LI_notify x z m z2 :
+  LI x z -> notif m -> crecv fl z m = ROk z2 -> LI (add_down m x) z2.
+Proof.
+  intros I Hn Hr. destruct (notif_crecv _ _ _ Hn Hr) as (F1 & F2 & F3).
+  destruct I as [I1 I2 I3 I4 I5 I6 I7 I8 I9 I10 I11 I12].
+  destruct x as [core nx nh q up dn]. cbn in *. constructor; cbn; rewrite ?F1, ?F2; try assumption.
+  rewrite cdrain_app, I1. cbn. rewrite Hr. reflexivity.
+Qed.
+
+(* the head request is answered *)
+Lemma nodup_tail m u : NoDup (omap up_serial (m :: u)) -> NoDup (omap up_serial u).
+Proof. cbn. destruct (up_serial m); [intros H; apply NoDup_cons in H; tauto|auto]. Qed.
+Lemma head_not_in_tail m u s m' :
+  NoDup (omap up_serial (m :: u)) -> up_serial m = Some s -> m' ∈ u -> up_serial m' = Some s -> False.
+Proof.
+  cbn. intros Hnd Hs Hin Hs'. rewrite Hs in Hnd. apply NoDup_cons in Hnd. destruct Hnd as [Hn _]. apply Hn.
+  apply elem_of_list_omap. exists m'. split; assumption.
+Qed.
+
+Lemma LI_pop_common x z m u :
+  LI x z -> c_up x = m :: u ->
+  NoDup (omap up_serial u) /\ (forall s, s ∈ omap up_serial u -> s < c_next x) /\ (forall m', m' ∈ u -> is_upmsg m').
+Proof.
+  intros I Hu. pose proof (li_nodup _ _ I) as H1. pose proof (li_fresh_up _ _ I) as H2. pose proof (li_up_only _ _ I) as H3.
+  rewrite Hu in *. split; [eapply nodup_tail; exact H1|]. split.
+  - intros s Hs. apply H2. cbn. destruct (up_serial m); [right|]; exact Hs.
+  - intros m' Hin. apply H3. right. exact Hin.
+Qed.
+
+Lemma LI_close_reply x z s e u r :
+  LI x z -> c_up x = CloseChannelEnd s k e :: u ->
+  exists (b : bool) z2, k_pclose z !! s = Some (e, b) /\ crecv fl z (CloseChannelEndReply s r) = ROk z2 /\
+    z2 = (if b then set_ent (z <| k_pclose ::= delete s |>) e None else z <| k_pclose ::= delete s |>) /\
+    LI (add_down (CloseChannelEndReply s r) (x <| c_up := u |>)) z2.
+Proof.
+  intros I Hu. destruct (LI_pop_common _ _ _ _ I Hu) as (P1 & P2 & P3).
+  pose proof (LI_drained_AI _ _ I) as Haz.
+  destruct (li_up_pclose _ _ I s e) as [b Hb]; [rewrite Hu; left|].
+  exists b.
+  assert (Hr : exists z2, crecv fl z (CloseChannelEndReply s r) = ROk z2 /\
+               z2 = (if b then set_ent (z <| k_pclose ::= delete s |>) e None else z <| k_pclose ::= delete s |>)).
+  { cbn. rewrite Hb. cbn. destruct b; [|eexists; split; reflexivity].
+    assert (ent z e <> None).
+    { apply (ai_tok _ _ Haz e). pose proof (tokens_ge_pclose z (c_q x) s e Hb). pose proof (proj1 (ai_tok _ _ Haz e)). lia. }
+    destruct (ent z e); [|contradiction]. eexists; split; reflexivity. }
+  destruct Hr as (z2 & Hr & Hz2). exists z2. split; [exact Hb|]. split; [exact Hr|]. split; [exact Hz2|].
+  assert (Hpc : k_pclose z2 = delete s (k_pclose z)) by (subst z2; destruct b, z, e; reflexivity).
+  assert (Hpk : k_pclaim z2 = k_pclaim z) by (subst z2; destruct b, z, e; reflexivity).
+  destruct I as [I1 I2 I3 I4 I5 I6 I7 I8 I9 I10 I11 I12].
+  destruct x as [core nx nh q up dn]. cbn in *. subst up. constructor; cbn; rewrite ?Hpc, ?Hpk; try assumption.
+  - rewrite cdrain_app, I1. cbn. cbn in Hr. rewrite Hr. reflexivity.
+  - intros s0 e0 b0 H0. apply lookup_delete_Some in H0. destruct H0 as [Hne H0].
+    pose proof (I4 _ _ _ H0) as Hin. apply elem_of_cons in Hin. destruct Hin as [Hin|Hin]; [inversion Hin; congruence|exact Hin].
+  - intros s0 e0 Hin. destruct (I5 s0 e0 ltac:(right; exact Hin)) as [b0 Hb0]. exists b0.
+    rewrite lookup_delete_ne; [exact Hb0|]. intros <-.
+    eapply (head_not_in_tail _ _ s _ I9); [reflexivity|exact Hin|reflexivity].
+  - intros s0 e0 h H0. destruct (I6 _ _ _ H0) as [cap Hin]. exists cap.
+    apply elem_of_cons in Hin. destruct Hin as [Hin|Hin]; [destruct e0; discriminate|exact Hin].
+  - intros s0 ec Hin. apply I7. right. exact Hin.
+Qed.
+
+Lemma LI_claim_reply x z s ec u :
+  LI x z -> c_up x = ClaimChannelEnd s k ec :: u ->
+  exists hid, k_pclaim z !! s = Some (end_of_cap ec, hid) /\
+    k_handles z !! hid = Some {| h_end := end_of_cap ec; h_kind := HClaiming |} /\
+    forall r z2, crecv fl z (ClaimChannelEndReply s r) = ROk z2 ->
+      k_pclose z2 = k_pclose z -> k_pclaim z2 = delete s (k_pclaim z) ->
+      LI (add_down (ClaimChannelEndReply s r) (x <| c_up := u |>)) z2.
+Proof.
+  intros I Hu. destruct (LI_pop_common _ _ _ _ I Hu) as (P1 & P2 & P3).
+  pose proof (LI_drained_AI _ _ I) as Haz.
+  destruct (li_up_pclaim _ _ I s ec) as [hid Hh]; [rewrite Hu; left|].
+  exists hid. split; [exact Hh|]. split; [eapply (ai_claim_h _ _ Haz); exact Hh|].
+  intros r z2 Hr Hpc Hpk.
+  destruct I as [I1 I2 I3 I4 I5 I6 I7 I8 I9 I10 I11 I12].
+  destruct x as [core nx nh q up dn]. cbn in *. subst up. constructor; cbn; rewrite ?Hpc, ?Hpk; try assumption.
+  - rewrite cdrain_app, I1. cbn. cbn in Hr. rewrite Hr. reflexivity.
+  - intros s0 e0 b0 H0. pose proof (I4 _ _ _ H0) as Hin. apply elem_of_cons in Hin.
+    destruct Hin as [Hin|Hin]; [discriminate|exact Hin].
+  - intros s0 e0 Hin. apply I5. right. exact Hin.
+  - intros s0 e0 h H0. apply lookup_delete_Some in H0. destruct H0 as [Hne H0].
+    destruct (I6 _ _ _ H0) as [cap Hin]. exists cap.
+    apply elem_of_cons in Hin. destruct Hin as [Hin|Hin]; [inversion Hin; congruence|exact Hin].
+  - intros s0 ec0 Hin. destruct (I7 s0 ec0 ltac:(right; exact Hin)) as [h Hh0]. exists h.
+    rewrite lookup_delete_ne; [exact Hh0|]. intros <-.
+    eapply (head_not_in_tail _ _ s _ I9); [reflexivity|exact Hin|reflexivity].
+Qed.
+
+(* a request without a reply is taken from the queue *)
+Lemma LI_pop_plain x z m u :
+  LI x z -> c_up x = m :: u -> up_serial m = None -> LI (x <| c_up := u |>) z.
+Proof.
+  intros I Hu Hm. destruct (LI_pop_common _ _ _ _ I Hu) as (P1 & P2 & P3).
+  destruct I as [I1 I2 I3 I4 I5 I6 I7 I8 I9 I10 I11 I12].
+  destruct x as [core nx nh q up dn]. cbn in *. subst up. constructor; cbn; try assumption.
+  - intros s e b H0. pose proof (I4 _ _ _ H0) as Hin. apply elem_of_cons in Hin.
+    destruct Hin as [Hin|Hin]; [subst m; discriminate|exact Hin].
+  - intros s e Hin. apply I5. right. exact Hin.
+  - intros s e h H0. destruct (I6 _ _ _ H0) as [cap Hin]. exists cap. apply elem_of_cons in Hin.
+    destruct Hin as [Hin|Hin]; [subst m; destruct e; discriminate|exact Hin].
+  - intros s ec Hin. apply I7. right. exact Hin.
+Qed.
+
+(* ---------------------------------------------------------------- what the broker's channel functions do to the ends *)
+Lemma chan_close_notify ch e ch' o :
+  chan_close ch e = CloseNotify ch' o ->
+  end_st ch' e = Closed /\ end_st ch' (other_end e) = end_st ch (other_end e) /\
+  (exists cap, end_st ch (other_end e) = Claimed o cap) /\
+  (end_st ch e = Unclaimed \/ exists o' cap', end_st ch e = Claimed o' cap').
+Proof.
+  unfold chan_close. destruct ch as [s r]. destruct e; cbn.
+  - destruct s as [|so sc|], r as [|ro rc|]; intros H; inversion H; subst; cbn; eauto 10.
+  - destruct r as [|ro rc|], s as [|so sc|]; intros H; inversion H; subst; cbn; eauto 10.
+Qed.
+
+Lemma chan_close_result_ok ch c e :
+  chan_close_result ch c e <> R3Ok -> (forall cap, end_st ch e <> Claimed c cap) /\ end_st ch e <> Unclaimed.
+Proof.
+  unfold chan_close_result, end_st. destruct e; [destruct (ch_s ch) as [|o cp|]|destruct (ch_r ch) as [|o cp|]];
+    intros H; try (exfalso; apply H; reflexivity); try (split; [intros cap|]; discriminate);
+    (destruct (bool_decide (o = c)) eqn:E; [exfalso; apply H; reflexivity|]; apply bool_decide_eq_false in E;
+     split; [intros cap Hc; inversion Hc; congruence|discriminate]).
+Qed.
+
+Lemma chan_claim_err ch c ec r : chan_claim ch c ec = ClaimErr r -> r = CLAlready \/ r = CLInvalid.
+Proof.
+  unfold chan_claim. destruct ec; [destruct (ch_s ch); [destruct (ch_r ch)| |]|destruct (ch_r ch); [destruct (ch_s ch)| |]];
+    intros H; inversion H; auto.
+Qed.
+
+Lemma chan_claim_ok ch c ec ch' other r :
+  chan_claim ch c ec = ClaimOk ch' other r ->
+  let e := end_of_cap ec in
+  end_st ch e = Unclaimed /\ (exists cap, end_st ch (other_end e) = Claimed other cap) /\
+  (exists cap', end_st ch' e = Claimed c cap') /\ (exists cap'', end_st ch' (other_end e) = Claimed other cap'') /\
+  match e with ESender => exists cp, r = CLSenderClaimed cp | EReceiver => r = CLReceiverClaimed end.
+Proof.
+  unfold chan_claim. destruct ch as [s rr]. destruct ec; cbn.
+  - destruct s; try discriminate. destruct rr as [|ro rc|]; try discriminate. intros H; inversion H; subst; cbn. eauto 10.
+  - destruct rr; try discriminate. destruct s as [|so sc|]; try discriminate. intros H; inversion H; subst; cbn. eauto 10.
+Qed.
+
+(* only the capacities change *)
+Definition same_kind (a b : end_state) : Prop :=
+  match a, b with
+  | Unclaimed, Unclaimed | Closed, Closed => True
+  | Claimed o _, Claimed o' _ => o = o'
+  | _, _ => False
+  end.
+Definition same_ends (ch ch' : chan) : Prop := forall e, same_kind (end_st ch e) (end_st ch' e).
+
+Lemma linkx_same_ends skip ch ch' c z q : same_ends ch ch' -> linkx skip (Some ch) c z q -> linkx skip (Some ch') c z q.
+Proof.
+  intros Hs L e Hsk. destruct (L e Hsk) as [La Lb]. pose proof (Hs e) as He. pose proof (Hs (other_end e)) as Ho.
+  split.
+  - intros cap Hc. rewrite Hc in He. destruct (end_st ch e) as [|o cp|] eqn:E; cbn in He; try contradiction. subst o.
+    destruct (La cp eq_refl) as [G1 G2]. split; [exact G1|]. rewrite G2. f_equal.
+    destruct (end_st ch (other_end e)), (end_st ch' (other_end e)); cbn in Ho; try contradiction; reflexivity.
+  - intros Hu. rewrite Hu in He. destruct (end_st ch e) eqn:E; cbn in He; try contradiction. apply Lb. reflexivity.
+Qed.
+
+Lemma chan_send_item_forward ch c ch' ro add :
+  chan_send_item ch c = ItemForward ch' ro add ->
+  same_ends ch ch' /\ (exists sc, ch_s ch = Claimed c sc) /\ (exists rc, ch_r ch = Claimed ro rc).
+Proof.
+  unfold chan_send_item. destruct ch as [s r]; cbn. destruct s as [|so sc|]; try discriminate.
+  destruct (bool_decide (so = c)) eqn:E; cbn; [|discriminate]. apply bool_decide_eq_true in E. subst so.
+  destruct r as [|ro' rc|]; try discriminate.
+  destruct (sc =? 0); [destruct (negb (rc =? 0)); discriminate|]. destruct (rc =? 0); [discriminate|].
+  intros H. inversion H; subst. split; [|eauto]. intros []; cbn; reflexivity.
+Qed.
+
+Lemma chan_add_capacity_update ch c cap ch' notify :
+  chan_add_capacity ch c cap = AddUpdate ch' notify ->
+  same_ends ch ch' /\ (forall so n, notify = Some (so, n) -> (exists sc, ch_s ch = Claimed so sc) /\ exists ro rc, ch_r ch = Claimed ro rc).
+Proof.
+  unfold chan_add_capacity. destruct (cap =? 0); [discriminate|]. destruct ch as [s r]; cbn.
+  destruct r as [|ro rc|]; try discriminate. destruct (negb (bool_decide (ro = c))); [discriminate|].
+  destruct (channel_cap_add rc cap); [|discriminate].
+  destruct s as [|so sc|]; cbn.
+  - intros H; inversion H; subst. split; [intros []; cbn; reflexivity|discriminate].
+  - destruct (sc <=? LOW_CAPACITY); [destruct (negb (sc <? n)); [discriminate|]|];
+      intros H; inversion H; subst; (split; [intros []; cbn; reflexivity|]); [|discriminate].
+    intros so' n' Hn. inversion Hn; subst. eauto.
+  - intros H; inversion H; subst. split; [intros []; cbn; reflexivity|discriminate].
+Qed.
+
+(* ---------------------------------------------------------------- Broker::remove_channel_end *)
+Definition good (r : cres) : Prop :=
+  match r with COk y' => CI y' | CBrokerPanic _ => True | _ => False end.
+
+Lemma PI_none skip skip' cls ch : PI skip cls ch -> PI skip' cls None.
+Proof. intros P c x Hx. destruct (P c x Hx) as (z & I & _). exists z. split; [exact I|exact Logic.I]. Qed.
+
+Lemma PI_weaken skip cls ch : PI None cls ch -> PI skip cls ch.
+Proof. intros P c x Hx. destruct (P c x Hx) as (z & I & L). exists z. split; [exact I|apply linkx_weaken; exact L]. Qed.
+
+Lemma remove_end_good y e :
+  y_k y = k -> PI (Some e) (y_cl y) (y_ch y) -> good (b_remove_end y e).
+Proof.
+  intros Hk P. unfold b_remove_end. destruct (y_ch y) as [ch|] eqn:Ech.
+  2:{ cbn. split; [exact Hk|]. rewrite Ech. eapply PI_none. exact P. }
+  destruct (chan_close ch e) as [|ch' o|site] eqn:Ec; [| |exact Logic.I].
+  - cbn. split; [destruct y; exact Hk|]. destruct y; cbn in *. eapply PI_none. exact P.
+  - destruct (chan_close_notify _ _ _ _ Ec) as (C1 & C2 & (capo & C3) & C4).
+    destruct (y_cl y !! o) as [xo|] eqn:Eo.
+    2:{ cbn. split; [destruct y; exact Hk|]. destruct y; cbn in *. eapply PI_none. exact P. }
+    cbn. destruct (push_down_ch (y <| y_ch := Some ch' |>) o (ChannelEndClosed (y_k y) e)) as [F1 F2].
+    split; [rewrite F2; destruct y; exact Hk|]. rewrite F1.
+    assert (Hch : y_ch (y <| y_ch := Some ch' |>) = Some ch') by (destruct y; reflexivity).
+    assert (Hcl : y_cl (y <| y_ch := Some ch' |>) = y_cl y) by (destruct y; reflexivity).
+    rewrite Hch. intros c' x' Hx'. rewrite push_down_cl, Hcl in Hx'.
+    destruct (decide (c' = o)) as [->|Hne].
+    + (* the owner of the other end is told *)
+      rewrite Eo in Hx'. cbn in Hx'. inversion Hx'; subst x'; clear Hx'.
+      destruct (P o xo Eo) as (z & I & L).
+      destruct (L (other_end e) ltac:(intros H; inversion H as [H']; symmetry in H'; apply other_end_ne in H'; exact H')) as [La _].
+      destruct (La capo C3) as [Lt Le]. rewrite other_end_invol in Le.
+      assert (Hacc : crecv fl z (ChannelEndClosed (y_k y) e) = ROk (set_ent z (other_end e) (Some EPeerClosed))).
+      { cbn. rewrite Le. destruct C4 as [C4|(o' & cap' & C4)]; rewrite C4; reflexivity. }
+      exists (set_ent z (other_end e) (Some EPeerClosed)). split; [eapply LI_notify; [exact I|exact Logic.I|exact Hacc]|].
+      intros e' _. destruct (end_cases e e') as [->| ->].
+      * rewrite C1. split; [intros cap Hc; discriminate|discriminate].
+      * rewrite C2, C3. split; [|discriminate]. intros cap Hc. rewrite tokens_set_ent, ent_set_same, other_end_invol, C1.
+        split; [exact Lt|reflexivity].
+    + destruct (P c' x' Hx') as (z & I & L). exists z. split; [exact I|].
+      intros e' _. destruct (end_cases e e') as [->| ->].
+      * rewrite C1. split; [intros cap Hc; discriminate|discriminate].
+      * rewrite C2, C3. split; [intros cap Hc; inversion Hc; congruence|discriminate].
+Qed.
+
+(* ---------------------------------------------------------------- SBroker *)
+Lemma put_fields y c x : y_k (put y c x) = y_k y /\ y_ch (put y c x) = y_ch y /\ y_cl (put y c x) = <[c := x]> (y_cl y).
+Proof. destruct y; repeat split. Qed.
+
+(* the clients of the state in which c's head request is taken and answered with [m] *)
+Lemma popped_reply_cl y c x u m c' :
+  y_cl (push_down (put y c (x <| c_up := u |>)) c m) !! c' =
+  if decide (c' = c) then Some (add_down m (x <| c_up := u |>)) else y_cl y !! c'.
+Proof.
+  rewrite push_down_cl. destruct (put_fields y c (x <| c_up := u |>)) as (_ & _ & F). rewrite F.
+  destruct (decide (c' = c)) as [->|Hne]; [rewrite lookup_insert; reflexivity|rewrite lookup_insert_ne by congruence; reflexivity].
+Qed.
+
+Lemma tokens0_absent z q e : AI z q -> tokens z q e = 0%nat -> ent z e = None.
+Proof.
+  intros I H. destruct (ent z e) eqn:E; [|reflexivity].
+  assert (tokens z q e = 1%nat) by (apply (ai_tok _ _ I e); congruence). lia.
+Qed.
+
+Lemma ci_close y c x s k0 e u :
+  CI y -> y_cl y !! c = Some x -> c_up x = CloseChannelEnd s k0 e :: u ->
+  good (broker_msg (put y c (x <| c_up := u |>)) c (CloseChannelEnd s k0 e)).
+Proof.
+  intros [Hk P] Hc Hu. destruct (P c x Hc) as (z & I & L).
+  assert (k0 = k) by (apply (li_up_only _ _ I (CloseChannelEnd s k0 e)); rewrite Hu; left). subst k0.
+  set (y0 := put y c (x <| c_up := u |>)).
+  destruct (put_fields y c (x <| c_up := u |>)) as (F1 & F2 & F3). fold y0 in F1, F2, F3.
+  pose proof (LI_drained_AI _ _ I) as Haz.
+  cbn [broker_msg]. rewrite F2.
+  (* what the reply does to c, whatever its result *)
+  assert (Hreply : forall r, exists b z2, k_pclose z !! s = Some (e, b) /\
+             LI (add_down (CloseChannelEndReply s r) (x <| c_up := u |>)) z2 /\
+             (forall e', e' <> e -> tokens z2 (c_q x) e' = tokens z (c_q x) e' /\ ent z2 e' = ent z e') /\
+             (b = false -> tokens z2 (c_q x) e = tokens z (c_q x) e /\ ent z2 e = ent z e)).
+  { intros r. destruct (LI_close_reply _ _ _ _ _ r I Hu) as (b & z2 & Hb & Hr & Hz2 & I2).
+    exists b, z2. split; [exact Hb|]. split; [exact I2|].
+    assert (Hq : c_q (x <| c_up := u |>) = c_q x) by (destruct x; reflexivity).
+    split.
+    - intros e' Hne. pose proof (tokens_del_pclose z (c_q x) s e b e' Hb) as Ht.
+      assert (tok_close e' (e, b) = false) as Hf.
+      { unfold tok_close. cbn. rewrite bool_decide_eq_false_2 by congruence. reflexivity. }
+      rewrite Hf in Ht. subst z2. destruct b.
+      + rewrite tokens_set_ent, ent_set_other by congruence. split; [lia|destruct z, e'; reflexivity].
+      + split; [lia|destruct z, e'; reflexivity].
+    - intros ->. pose proof (tokens_del_pclose z (c_q x) s e false e Hb) as Ht. rewrite tok_close_false in Ht.
+      subst z2. split; [lia|destruct z, e; reflexivity]. }
+  assert (Hqx : c_q (add_down (CloseChannelEndReply s R3Invalid) (x <| c_up := u |>)) = c_q x) by (destruct x; reflexivity).
+  destruct (y_ch y) as [ch|] eqn:Ech.
+  - (* the channel exists *)
+    set (r := chan_close_result ch c e).
+    destruct (Hreply r) as (b & z2 & Hb & I2 & Hoth & Hsame).
+    assert (Hq2 : c_q (add_down (CloseChannelEndReply s r) (x <| c_up := u |>)) = c_q x) by (destruct x; reflexivity).
+    set (y1 := push_down y0 c (CloseChannelEndReply s r)).
+    destruct (push_down_ch y0 c (CloseChannelEndReply s r)) as [G1 G2]. fold y1 in G1, G2.
+    assert (Hy1k : y_k y1 = k) by (rewrite G2, F1; exact Hk).
+    assert (Hy1ch : y_ch y1 = Some ch) by (rewrite G1, F2; reflexivity).
+    (* all clients but for what concerns end e of c *)
+    assert (Hrest : forall skip, (skip = Some e \/ (r <> R3Ok)) -> PI skip (y_cl y1) (Some ch)).
+    { intros skip Hskip c' x' Hx'. unfold y1, y0 in Hx'. rewrite popped_reply_cl in Hx'.
+      destruct (decide (c' = c)) as [->|Hne].
+      - inversion Hx'; subst x'; clear Hx'. exists z2. split; [exact I2|]. rewrite Hq2.
+        intros e' Hsk. destruct (decide (e' = e)) as [->|Hne'].
+        + destruct Hskip as [->|Hr]; [contradiction|].
+          destruct (chan_close_result_ok ch c e Hr) as [R1 R2].
+          split; [intros cap Hcap; exfalso; eapply R1; exact Hcap|intros Hun; contradiction].
+        + destruct (Hoth e' Hne') as [T1 T2]. rewrite T1, T2. apply L. discriminate.
+      - destruct (P c' x' Hx') as (z' & I' & L'). exists z'. split; [exact I'|]. apply linkx_weaken. exact L'. }
+    destruct r eqn:Er; fold r in Er.
+    + (* Ok: the end is removed *)
+      apply remove_end_good; [exact Hy1k|]. rewrite Hy1ch. apply Hrest. left. reflexivity.
+    + cbn. split; [exact Hy1k|]. rewrite Hy1ch. apply Hrest. right. congruence.
+    + cbn. split; [exact Hy1k|]. rewrite Hy1ch. apply Hrest. right. congruence.
+  - (* the channel is gone *)
+    destruct (Hreply R3Invalid) as (b & z2 & Hb & I2 & _ & _).
+    cbn. destruct (push_down_ch y0 c (CloseChannelEndReply s R3Invalid)) as [G1 G2].
+    split; [rewrite G2, F1; exact Hk|]. rewrite G1, F2.
+    intros c' x' Hx'. unfold y0 in Hx'. rewrite popped_reply_cl in Hx'. destruct (decide (c' = c)) as [->|Hne].
+    + inversion Hx'; subst x'. exists z2. split; [exact I2|exact Logic.I].
+    + destruct (P c' x' Hx') as (z' & I' & _). exists z'. split; [exact I'|exact Logic.I].
+Qed.
+
+Lemma claim_refused_effect z s e hid r q :
+  k_pclaim z !! s = Some (e, hid) -> k_handles z !! hid = Some {| h_end := e; h_kind := HClaiming |} ->
+  r = CLAlready \/ r = CLInvalid ->
+  exists z2, crecv fl z (ClaimChannelEndReply s r) = ROk z2 /\
+    k_pclose z2 = k_pclose z /\ k_pclaim z2 = delete s (k_pclaim z) /\
+    (forall e', tokens z2 q e' = tokens z q e') /\ (forall e', ent z2 e' = ent z e').
+Proof.
+  intros Hs Hh Hr. exists (deliver (z <| k_pclaim ::= delete s |>) hid false).
+  assert (Hh' : k_handles (z <| k_pclaim ::= delete s |>) !! hid = Some {| h_end := e; h_kind := HClaiming |}) by (destruct z; exact Hh).
+  split; [cbn; rewrite Hs; cbn; destruct Hr as [-> | ->], e; reflexivity|].
+  destruct (deliver_fields (z <| k_pclaim ::= delete s |>) hid false) as (F1 & F2 & F3 & F4).
+  split; [rewrite F1; destruct z; reflexivity|]. split; [rewrite F2; destruct z; reflexivity|]. split.
+  - intros e'. rewrite (deliver_claiming _ hid e false Hh').
+    pose proof (tokens_set_handle (z <| k_pclaim ::= delete s |>) q hid {| h_end := e; h_kind := HResult false |} _ e' Hh') as Ht.
+    unfold tok_handle in Ht at 1 2. cbn in Ht. rewrite !andb_false_r in Ht. rewrite tokens_pclaim in Ht. lia.
+  - intros e'. destruct e'; cbn; [rewrite F3|rewrite F4]; destruct z; reflexivity.
+Qed.
+
+Lemma claim_granted_effect z s e hid r q :
+  k_pclaim z !! s = Some (e, hid) -> k_handles z !! hid = Some {| h_end := e; h_kind := HClaiming |} ->
+  match e with ESender => exists cp, r = CLSenderClaimed cp | EReceiver => r = CLReceiverClaimed end ->
+  ent z e = None ->
+  exists z2, crecv fl z (ClaimChannelEndReply s r) = ROk z2 /\
+    k_pclose z2 = k_pclose z /\ k_pclaim z2 = delete s (k_pclaim z) /\
+    tokens z2 q e = S (tokens z q e) /\ tokens z2 q (other_end e) = tokens z q (other_end e) /\
+    ent z2 e = Some EEstablished /\ ent z2 (other_end e) = ent z (other_end e).
+Proof.
+  intros Hs Hh Hr Hnone. set (z1 := set_ent (z <| k_pclaim ::= delete s |>) e (Some EEstablished)).
+  exists (deliver z1 hid true).
+  destruct (set_ent_fields (z <| k_pclaim ::= delete s |>) e (Some EEstablished)) as (S1 & S2 & S3). fold z1 in S1, S2, S3.
+  assert (Hh' : k_handles z1 !! hid = Some {| h_end := e; h_kind := HClaiming |}) by (rewrite S3; destruct z; exact Hh).
+  split.
+  { cbn. rewrite Hs. cbn. destruct e; cbn in *.
+    - destruct Hr as [cp ->]. rewrite Hnone. reflexivity.
+    - subst r. rewrite Hnone. reflexivity. }
+  destruct (deliver_fields z1 hid true) as (F1 & F2 & F3 & F4).
+  split; [rewrite F1, S1; destruct z; reflexivity|]. split; [rewrite F2, S2; destruct z; reflexivity|].
+  assert (Htok : forall e', (tokens (deliver z1 hid true) q e' = tokens z q e' + if bool_decide (e = e') then 1 else 0)%nat).
+  { intros e'. rewrite (deliver_claiming _ hid e true Hh').
+    pose proof (tokens_set_handle z1 q hid {| h_end := e; h_kind := HResult true |} _ e' Hh') as Ht.
+    unfold tok_handle in Ht at 1 2. cbn in Ht. rewrite andb_false_r, andb_true_r in Ht.
+    unfold z1 in Ht. rewrite tokens_set_ent, tokens_pclaim in Ht. fold z1 in Ht. lia. }
+  split; [rewrite Htok, bool_decide_eq_true_2 by reflexivity; lia|].
+  split; [rewrite Htok, bool_decide_eq_false_2 by (intros H; symmetry in H; apply other_end_ne in H; exact H); lia|].
+  assert (Hent : forall e', ent (deliver z1 hid true) e' = ent z1 e') by (intros []; cbn; [rewrite F3|rewrite F4]; reflexivity).
+  split; [rewrite Hent; unfold z1; apply ent_set_same|].
+  rewrite Hent. unfold z1. rewrite ent_set_other by (intros H; symmetry in H; apply other_end_ne in H; exact H).
+  destruct z, e; reflexivity.
+Qed.
+
+Lemma claimed_notif_accept zz ec :
+  ent zz (other_end (end_of_cap ec)) = Some EPending ->
+  crecv fl zz (ChannelEndClaimed k ec) = ROk (set_ent zz (other_end (end_of_cap ec)) (Some EEstablished)).
+Proof. intros H. cbn. rewrite H. reflexivity. Qed.
+
+Lemma ci_claim y c x s k0 ec u :
+  CI y -> y_cl y !! c = Some x -> c_up x = ClaimChannelEnd s k0 ec :: u ->
+  good (broker_msg (put y c (x <| c_up := u |>)) c (ClaimChannelEnd s k0 ec)).
+Proof.
+  intros [Hk P] Hc Hu. destruct (P c x Hc) as (z & I & L).
+  assert (k0 = k) by (apply (li_up_only _ _ I (ClaimChannelEnd s k0 ec)); rewrite Hu; left). subst k0.
+  set (xp := x <| c_up := u |>). set (y0 := put y c xp).
+  destruct (put_fields y c xp) as (F1 & F2 & F3). fold y0 in F1, F2, F3.
+  pose proof (LI_drained_AI _ _ I) as Haz.
+  destruct (LI_claim_reply _ _ _ _ _ I Hu) as (hid & Hs & Hh & Hli).
+  set (e := end_of_cap ec) in *.
+  assert (Hqp : forall m, c_q (add_down m xp) = c_q x) by (intros m; destruct x; reflexivity).
+  (* a refusal: nothing but the reply *)
+  assert (Hrefuse : forall r, r = CLAlready \/ r = CLInvalid ->
+            good (COk (push_down y0 c (ClaimChannelEndReply s r)))).
+  { intros r Hr. destruct (claim_refused_effect z s e hid r (c_q x) Hs Hh Hr) as (z2 & Hacc & G1 & G2 & G3 & G4).
+    cbn. destruct (push_down_ch y0 c (ClaimChannelEndReply s r)) as [E1 E2].
+    split; [rewrite E2, F1; exact Hk|]. rewrite E1, F2.
+    intros c' x' Hx'. unfold y0, xp in Hx'. rewrite popped_reply_cl in Hx'. destruct (decide (c' = c)) as [->|Hne].
+    - inversion Hx'; subst x'. exists z2. split; [apply Hli; assumption|]. fold xp. rewrite Hqp.
+      eapply link_same; [exact L|exact G3|exact G4].
+    - apply P. exact Hx'. }
+  cbn [broker_msg]. rewrite F2. destruct (y_ch y) as [ch|] eqn:Ech.
+  2:{ apply Hrefuse. right. reflexivity. }
+  destruct (chan_claim ch c ec) as [r|ch' other r|site] eqn:Ecl; [| |exact Logic.I].
+  { apply Hrefuse. eapply chan_claim_err. exact Ecl. }
+  (* granted *)
+  destruct (chan_claim_ok _ _ _ _ _ _ Ecl) as (C1 & (capo & C2) & (capc & C3) & (capo' & C4) & C5). fold e in C1, C2, C3, C4, C5.
+  destruct (L e ltac:(discriminate)) as [_ Lb]. pose proof (Lb C1) as Ht0.
+  pose proof (tokens0_absent z (c_q x) e Haz Ht0) as Hnone.
+  destruct (claim_granted_effect z s e hid r (c_q x) Hs Hh C5 Hnone) as (z2 & Hacc & G1 & G2 & G3 & G4 & G5 & G6).
+  pose proof (Hli r z2 Hacc G1 G2) as I2.
+  set (y1 := push_down (y0 <| y_ch := Some ch' |>) c (ClaimChannelEndReply s r)).
+  set (m2 := ChannelEndClaimed (y_k y0) ec).
+  assert (Hm2 : m2 = ChannelEndClaimed k ec) by (unfold m2; rewrite F1, Hk; reflexivity).
+  cbn. fold y1. fold m2.
+  destruct (push_down_ch y1 other m2) as [E1 E2].
+  destruct (push_down_ch (y0 <| y_ch := Some ch' |>) c (ClaimChannelEndReply s r)) as [E3 E4]. fold y1 in E3, E4.
+  assert (Hy0' : y_ch (y0 <| y_ch := Some ch' |>) = Some ch' /\ y_k (y0 <| y_ch := Some ch' |>) = y_k y0 /\
+                 y_cl (y0 <| y_ch := Some ch' |>) = y_cl y0) by (destruct y0; repeat split).
+  destruct Hy0' as (E5 & E6 & E7).
+  split; [rewrite E2, E4, E6, F1; exact Hk|]. rewrite E1, E3, E5.
+  (* the clients of y1 *)
+  assert (Hy1cl : forall c', y_cl y1 !! c' = if decide (c' = c) then Some (add_down (ClaimChannelEndReply s r) xp) else y_cl y !! c').
+  { intros c'. unfold y1. rewrite push_down_cl, E7, F3. destruct (decide (c' = c)) as [->|Hne].
+    - rewrite lookup_insert. reflexivity.
+    - rewrite lookup_insert_ne by congruence. reflexivity. }
+  (* links against the new channel entry *)
+  assert (Lc : forall zz, (forall e', tokens zz (c_q x) e' = tokens z2 (c_q x) e') -> ent zz e = Some EEstablished ->
+               (c = other -> ent zz (other_end e) = Some EEstablished) -> linkx None (Some ch') c zz (c_q x)).
+  { intros zz Htk He Ho e' _. destruct (end_cases e e') as [-> | ->].
+    - rewrite C3. split; [|discriminate]. intros cap _. rewrite Htk, G3, Ht0, C4. split; [reflexivity|exact He].
+    - rewrite C4. split; [|discriminate]. intros cap Hcap. inversion Hcap; subst other.
+      rewrite Htk, G4, other_end_invol, C3. destruct (L (other_end e) ltac:(discriminate)) as [La _].
+      destruct (La capo C2) as [T _]. split; [exact T|]. apply Ho. reflexivity. }
+  intros c' x' Hx'. rewrite push_down_cl in Hx'. destruct (decide (c' = other)) as [->|Hno].
+  - (* the owner of the other end *)
+    rewrite Hy1cl in Hx'. destruct (decide (other = c)) as [->|Hoc].
+    + (* the claimer holds both ends *)
+      cbn in Hx'. inversion Hx'; subst x'; clear Hx'.
+      destruct (L (other_end e) ltac:(discriminate)) as [La _]. destruct (La capo C2) as [T Hpend].
+      rewrite other_end_invol, C1 in Hpend. cbn in Hpend.
+      assert (Hacc2 : crecv fl z2 m2 = ROk (set_ent z2 (other_end e) (Some EEstablished))).
+      { rewrite Hm2. apply claimed_notif_accept. fold e. rewrite G6. exact Hpend. }
+      exists (set_ent z2 (other_end e) (Some EEstablished)). split; [eapply LI_notify; [exact I2|rewrite Hm2; exact Logic.I|exact Hacc2]|].
+      assert (Hq3 : c_q (add_down m2 (add_down (ClaimChannelEndReply s r) xp)) = c_q x) by (destruct x; reflexivity).
+      rewrite Hq3. apply Lc.
+      * intros e'. apply tokens_set_ent.
+      * rewrite ent_set_other by apply other_end_ne. exact G5.
+      * intros _. apply ent_set_same.
+    + destruct (y_cl y !! other) as [xo|] eqn:Eo; cbn in Hx'; [|discriminate]. inversion Hx'; subst x'; clear Hx'.
+      destruct (P other xo Eo) as (zo & Io & Lo).
+      destruct (Lo (other_end e) ltac:(discriminate)) as [La _]. destruct (La capo C2) as [T Hpend].
+      rewrite other_end_invol, C1 in Hpend. cbn in Hpend.
+      assert (Hacc2 : crecv fl zo m2 = ROk (set_ent zo (other_end e) (Some EEstablished))).
+      { rewrite Hm2. apply claimed_notif_accept. exact Hpend. }
+      exists (set_ent zo (other_end e) (Some EEstablished)). split; [eapply LI_notify; [exact Io|rewrite Hm2; exact Logic.I|exact Hacc2]|].
+      assert (Hq3 : c_q (add_down m2 xo) = c_q xo) by (destruct xo; reflexivity). rewrite Hq3.
+      intros e' _. destruct (end_cases e e') as [-> | ->].
+      * rewrite C3. split; [intros cap Hcap; inversion Hcap; congruence|discriminate].
+      * rewrite C4. split; [|discriminate]. intros cap _. rewrite tokens_set_ent, ent_set_same, other_end_invol, C3.
+        split; [exact T|reflexivity].
+  - rewrite Hy1cl in Hx'. destruct (decide (c' = c)) as [->|Hnc'].
+    + inversion Hx'; subst x'; clear Hx'. exists z2. split; [exact I2|]. rewrite Hqp. apply Lc.
+      * reflexivity.
+      * exact G5.
+      * intros ->. contradiction.
+    + destruct (P c' x' Hx') as (z' & I' & L'). exists z'. split; [exact I'|].
+      intros e' _. destruct (end_cases e e') as [-> | ->].
+      * rewrite C3. split; [intros cap Hcap; inversion Hcap; congruence|discriminate].
+      * rewrite C4. split; [intros cap Hcap; inversion Hcap; congruence|discriminate].
+Qed.
+
+(* a request without reply is taken: c's slice only loses the request *)
+Lemma PI_popped y c x u m :
+  PI None (y_cl y) (y_ch y) -> y_cl y !! c = Some x -> c_up x = m :: u -> up_serial m = None ->
+  PI None (y_cl (put y c (x <| c_up := u |>))) (y_ch y).
+Proof.
+  intros P Hc Hu Hm c' x' Hx'. destruct (put_fields y c (x <| c_up := u |>)) as (_ & _ & F). rewrite F in Hx'.
+  destruct (decide (c' = c)) as [->|Hne].
+  - rewrite lookup_insert in Hx'. inversion Hx'; subst x'. destruct (P c x Hc) as (z & I & L).
+    exists z. split; [eapply LI_pop_plain; eassumption|]. destruct x; exact L.
+  - rewrite lookup_insert_ne in Hx' by congruence. apply P. exact Hx'.
+Qed.
+
+(* a notification that leaves the drained core as it is, under an unchanged or cap-only-changed entry *)
+Lemma PI_push_same cls ch ch' o m :
+  PI None cls (Some ch) -> same_ends ch ch' -> notif m ->
+  (forall xo z, cls !! o = Some xo -> LI xo z -> linkx None (Some ch) o z (c_q xo) -> crecv fl z m = ROk z) ->
+  forall y, y_cl y = cls -> PI None (y_cl (push_down y o m)) (Some ch').
+Proof.
+  intros P Hs Hn Hacc y Hy c' x' Hx'. rewrite push_down_cl, Hy in Hx'. destruct (decide (c' = o)) as [->|Hne].
+  - destruct (cls !! o) as [xo|] eqn:Eo; cbn in Hx'; [|discriminate]. inversion Hx'; subst x'.
+    destruct (P o xo Eo) as (z & I & L). exists z. split; [eapply LI_notify; [exact I|exact Hn|exact (Hacc xo z eq_refl I L)]|].
+    assert (Hq : c_q (add_down m xo) = c_q xo) by (destruct xo; reflexivity). rewrite Hq.
+    eapply linkx_same_ends; eassumption.
+  - destruct (P c' x' Hx') as (z & I & L). exists z. split; [exact I|eapply linkx_same_ends; eassumption].
+Qed.
+
+Lemma same_ends_refl ch : same_ends ch ch.
+Proof. intros e. destruct (end_st ch e); cbn; auto. Qed.
+
+Lemma ci_send_item y c x k0 v u :
+  CI y -> y_cl y !! c = Some x -> c_up x = SendItem k0 v :: u ->
+  good (broker_msg (put y c (x <| c_up := u |>)) c (SendItem k0 v)).
+Proof.
+  intros [Hk P] Hc Hu. set (y0 := put y c (x <| c_up := u |>)).
+  destruct (put_fields y c (x <| c_up := u |>)) as (F1 & F2 & F3). fold y0 in F1, F2, F3.
+  pose proof (PI_popped y c x u _ P Hc Hu eq_refl) as P0. fold y0 in P0.
+  assert (G0 : CI y0) by (split; [rewrite F1; exact Hk|rewrite F2; exact P0]).
+  cbn [broker_msg]. destruct (y_ch y0) as [ch|] eqn:Ech; [|exact G0].
+  assert (Ech' : y_ch y = Some ch) by (symmetry; exact F2). rewrite Ech' in P0.
+  destruct (chan_send_item ch c) as [| | |ch' ro add|site] eqn:Esi; [exact G0| | | |exact Logic.I].
+  - (* the receiver is unclaimed: both ends are removed *)
+    unfold cbind.
+    pose proof (remove_end_good y0 EReceiver (proj1 G0) ltac:(rewrite Ech; apply PI_weaken; exact P0)) as R1.
+    destruct (b_remove_end y0 EReceiver) as [y1| | | |site] eqn:E1; cbn in R1; try contradiction; [|exact Logic.I].
+    apply remove_end_good; [apply R1|]. apply PI_weaken. apply R1.
+  - apply remove_end_good; [apply G0|]. rewrite Ech. apply PI_weaken. exact P0.
+  - (* forwarded *)
+    destruct (chan_send_item_forward _ _ _ _ _ Esi) as (Hse & (sc & Hs) & (rc & Hr)).
+    set (y1 := y0 <| y_ch := Some ch' |>).
+    assert (Hy1 : y_cl y1 = y_cl y0 /\ y_k y1 = y_k y0 /\ y_ch y1 = Some ch') by (destruct y0; repeat split).
+    destruct Hy1 as (Y1 & Y2 & Y3).
+    set (y2 := push_down y1 ro (ItemReceived (y_k y0) v)).
+    destruct (push_down_ch y1 ro (ItemReceived (y_k y0) v)) as [E1 E2]. fold y2 in E1, E2.
+    assert (P2 : PI None (y_cl y2) (Some ch')).
+    { unfold y2. eapply (PI_push_same (y_cl y0) ch ch' ro); [exact P0|exact Hse|exact Logic.I| |exact Y1].
+      intros xo z Hxo Io Lo. destruct (Lo EReceiver ltac:(discriminate)) as [La _]. cbn in La.
+      destruct (La rc Hr) as [_ He]. cbn in He. rewrite Hs in He. cbn in *. rewrite He. reflexivity. }
+    destruct add as [a|].
+    + cbn. fold y1. fold y2. destruct (push_down_ch y2 c (AddChannelCapacity (y_k y0) a)) as [E3 E4].
+      split; [rewrite E4, E2, Y2, F1; exact Hk|]. rewrite E3, E1, Y3.
+      eapply (PI_push_same (y_cl y2) ch' ch' c); [exact P2|apply same_ends_refl|exact Logic.I| |reflexivity].
+      intros xo z Hxo Io Lo. destruct (Lo ESender ltac:(discriminate)) as [La _]. cbn in La.
+      destruct (Hse ESender) as []. destruct (Hse EReceiver) as [].
+      assert (exists sc', ch_s ch' = Claimed c sc') as [sc' Hs'].
+      { pose proof (Hse ESender) as H1. cbn in H1. rewrite Hs in H1. destruct (ch_s ch'); cbn in H1; try contradiction. subst. eauto. }
+      assert (exists rc', ch_r ch' = Claimed ro rc') as [rc' Hr'].
+      { pose proof (Hse EReceiver) as H1. cbn in H1. rewrite Hr in H1. destruct (ch_r ch'); cbn in H1; try contradiction. subst. eauto. }
+      destruct (La sc' Hs') as [_ He]. cbn in He. rewrite Hr' in He. cbn in *. rewrite He. reflexivity.
+    + cbn. fold y1. fold y2. split; [rewrite E2, Y2, F1; exact Hk|]. rewrite E1, Y3. exact P2.
 Qed.
 
 End ChanEnds.
